@@ -5,6 +5,26 @@ import Gnet.Model.Drain
 namespace Gnet.Driver.EngineD
 open Gnet Gnet.Engine
 
+/-- Hand-overs made by DIFFERENT goroutines reach the task queue of a loop in an order the log cannot know: the log
+has the creation of the connection (entry of newStreamConn), the queue has the order of the Enqueue calls, and between
+the two a goroutine may be overtaken. Every Register / Enroll call runs on a goroutine of its own, the acceptor is one
+goroutine. So the replay lets a loop register any pending ENROLMENT, and an acceptor hand-over that is behind
+enrolments only, and demands the FIFO order among the acceptor's hand-overs (one producer). The model's queue is put
+into the order the registration reveals (the model run in which the hand-over steps were taken in that order; the
+theorems of Props/Handover are about the pending registrations as a multiset). -/
+def promote (s : Handover.State) (l k : Nat) : Option Handover.State :=
+  match s.loops[l]? with
+  | none => none
+  | some x =>
+    if !x.queue.contains (.register k) then none else
+    let before := x.queue.takeWhile (· != .register k)
+    let kEnrolled := s.enrolled.contains k
+    let blocked := before.any fun t => match t with
+      | .register j => !kEnrolled && !s.enrolled.contains j     -- both from the acceptor: FIFO
+      | .sentinel => true
+    if blocked then none
+    else some (Handover.setLoop s l { x with queue := .register k :: x.queue.erase (.register k) })
+
 /-- replays the hand-over events of a real engine life on the hand-over model: the acceptor's hand-overs
 (A:loop:seq), registrations on the loops (E:loop:seq, which must follow the FIFO order of the hand-overs),
 closes (C:loop:seq) and loops leaving Polling (X:loop); returns the number of descriptors the model leaves
@@ -34,7 +54,9 @@ def hoReplay (nloops : Nat) (evs : List String) : Except String (Nat × Nat) := 
           if !x.running then .error s!"{e}: loop {l} registers a connection after it left Polling"
           else match x.queue with
             | .register k' :: _ => if k' = k then .ok (Handover.step s (.exec l))
-                else .error s!"{e}: loop {l} registers {k} while {k'} was handed to it first"
+                else match promote s l k with
+                  | some s' => .ok (Handover.step s' (.exec l))
+                  | none => .error s!"{e}: loop {l} registers {k} while {k'} was handed to it first by the same goroutine, or {k} was not handed to it"
             | _ => .error s!"{e}: loop {l} registers {k}, which was not handed to it"
         | none => .error s!"{e}: no such loop"
       | _, _ => .error s!"unparsable hand-over event {e}"
